@@ -147,52 +147,6 @@ theorem claimValidatorRewards_sv (w0 : World) (val : AVal) :
 /-- every delegation record is stored under its own key (an invariant of every history: `L0.keyed`) -/
 def KD (w : World) : Prop := ∀ k dl, AL.get w.dels k = some dl → (dl.del, dl.val, dl.denom) = k
 
-/-- C13 "stake-neutral": `ClaimDelegationRewards` changes no share quantity -/
-theorem claimDelegationRewards_sv (w0 : World) (del : Acct) (val : AVal) (d : Denom) :
-    Hoare (fun w => (SV w0 w ∧ VS val w) ∧ KD w) (claimDelegationRewards del val d) (fun r w => SV w0 w ∧ VS r.2 w) := by
-  unfold claimDelegationRewards
-  apply Hoare.getW_bind; intro w1 hP
-  rcases ha : getAsset w1 d with _ | a
-  · exact Hoare.throwE _
-  · dsimp only []
-    apply Hoare.ite
-    · intro _; exact Hoare.pure _ (fun w e => by subst e; exact hP.1)
-    · intro _
-      rcases hd : getDelegation w1 del val.id d with _ | dl
-      · exact Hoare.throwE _
-      · dsimp only []
-        have hk : AL.get w1.dels (del, val.id, d) = some dl := hd
-        have hkey : (dl.del, dl.val, dl.denom) = (del, val.id, d) := hP.2 _ _ hk
-        -- the record stays while the validator's rewards are claimed
-        refine Hoare.conseq (P' := fun w => (SV w0 w ∧ VS val w) ∧ AL.get w.dels (del, val.id, d) = some dl)
-          (Q' := fun r w => SV w0 w ∧ VS r.2 w) ?_ (fun w e => by subst e; exact ⟨hP.1, hk⟩) (fun _ _ q => q)
-        apply Hoare.bind (R := fun r w => (SV w0 w ∧ VS r w) ∧ AL.get w.dels (del, val.id, d) = some dl)
-        · constructor
-          intro w w' r hm hw
-          have f1 := (by simp only [dframe] : FrameDels.Fr (claimValidatorRewards val)).frame w
-          rw [hm] at f1
-          have f1' : w'.dels = w.dels := f1
-          obtain ⟨q1, q2, _⟩ := (claimValidatorRewards_sv w0 val).run w w' r hm hw.1
-          exact ⟨⟨q1, q2⟩, by rw [f1']; exact hw.2⟩
-        · intro val1
-          apply Hoare.getW_bind; intro w2 hP2
-          apply Hoare.liftE_bind; intro r _
-          refine Hoare.at_state (P := fun w => (SV w0 w ∧ VS val1 w) ∧ AL.get w.dels (del, val.id, d) = some dl) hP2 ?_
-          apply Hoare.bind (R := fun _ w => SV w0 w ∧ VS val1 w)
-          · constructor
-            intro w w' u hm hw
-            have hsh : delShares w (dl.del, dl.val, dl.denom) = some dl.shares := by
-              rw [hkey]; unfold delShares; rw [hw.2]; rfl
-            have hsv := (SV.setDelegation (w0 := w0) { dl with hist := r.2, lastClaimHeight := w2.height }).run w w' u hm ⟨hw.1.1, hsh⟩
-            refine ⟨hsv, ?_⟩
-            unfold Alliance.setDelegation at hm
-            simp only [modifyW_apply] at hm
-            injection hm with _ hm; subst hm
-            exact hw.1.2
-          · intro _
-            apply Hoare.bind (svvs_frame (by simp only [dvframe]) (by aframe)); intro _
-            exact Hoare.pure _ (fun w h => h)
-
 theorem KD.frame {α} {m : M α} (h : FrameDels.Fr m) : Hoare KD m (fun _ w => KD w) := by
   constructor
   intro w w' a hm hw
@@ -200,6 +154,60 @@ theorem KD.frame {α} {m : M α} (h : FrameDels.Fr m) : Hoare KD m (fun _ w => K
   rw [hm] at f1
   have f1' : w'.dels = w.dels := f1
   unfold KD; rw [f1']; exact hw
+
+/-- C13 "stake-neutral": `ClaimDelegationRewards` changes no share quantity -/
+theorem claimDelegationRewards_sv (w0 : World) (del : Acct) (val : AVal) (d : Denom) :
+    Hoare (fun w => (SV w0 w ∧ VS val w) ∧ KD w) (claimDelegationRewards del val d) (fun r w => (SV w0 w ∧ VS r.2 w) ∧ KD w) := by
+  unfold claimDelegationRewards
+  apply Hoare.getW_bind; intro w1 hP
+  rcases ha : getAsset w1 d with _ | a
+  · exact Hoare.throwE _
+  · dsimp only []
+    apply Hoare.ite
+    · intro _; exact Hoare.pure _ (fun w e => by subst e; exact hP)
+    · intro _
+      rcases hd : getDelegation w1 del val.id d with _ | dl
+      · exact Hoare.throwE _
+      · dsimp only []
+        have hk : AL.get w1.dels (del, val.id, d) = some dl := hd
+        have hkey : (dl.del, dl.val, dl.denom) = (del, val.id, d) := hP.2 _ _ hk
+        -- the record stays while the validator's rewards are claimed
+        refine Hoare.conseq (P' := fun w => ((SV w0 w ∧ VS val w) ∧ AL.get w.dels (del, val.id, d) = some dl) ∧ KD w)
+          (Q' := fun r w => (SV w0 w ∧ VS r.2 w) ∧ KD w) ?_ (fun w e => by subst e; exact ⟨⟨hP.1, hk⟩, hP.2⟩) (fun _ _ q => q)
+        apply Hoare.bind (R := fun r w => ((SV w0 w ∧ VS r w) ∧ AL.get w.dels (del, val.id, d) = some dl) ∧ KD w)
+        · constructor
+          intro w w' r hm hw
+          have f1 := (by simp only [dframe] : FrameDels.Fr (claimValidatorRewards val)).frame w
+          rw [hm] at f1
+          have f1' : w'.dels = w.dels := f1
+          obtain ⟨q1, q2, _⟩ := (claimValidatorRewards_sv w0 val).run w w' r hm hw.1.1
+          exact ⟨⟨⟨q1, q2⟩, by rw [f1']; exact hw.1.2⟩, by unfold KD; rw [f1']; exact hw.2⟩
+        · intro val1
+          apply Hoare.getW_bind; intro w2 hP2
+          apply Hoare.liftE_bind; intro r _
+          refine Hoare.at_state (P := fun w => ((SV w0 w ∧ VS val1 w) ∧ AL.get w.dels (del, val.id, d) = some dl) ∧ KD w) hP2 ?_
+          apply Hoare.bind (R := fun _ w => (SV w0 w ∧ VS val1 w) ∧ KD w)
+          · constructor
+            intro w w' u hm hw
+            have hsh : delShares w (dl.del, dl.val, dl.denom) = some dl.shares := by
+              rw [hkey]; unfold delShares; rw [hw.1.2]; rfl
+            have hsv := (SV.setDelegation (w0 := w0) { dl with hist := r.2, lastClaimHeight := w2.height }).run w w' u hm ⟨hw.1.1.1, hsh⟩
+            unfold Alliance.setDelegation at hm
+            simp only [modifyW_apply] at hm
+            injection hm with _ hm; subst hm
+            refine ⟨⟨hsv, hw.1.1.2⟩, ?_⟩
+            intro k' dl' hg
+            simp only at hg
+            by_cases e : k' = (dl.del, dl.val, dl.denom)
+            · subst e
+              rw [AL.get_set_eq] at hg
+              injection hg with hg; subst hg; rfl
+            · rw [AL.get_set_ne _ _ _ _ e] at hg
+              exact hw.2 k' dl' hg
+          · intro _
+            apply Hoare.bind (R := fun _ w => (SV w0 w ∧ VS val1 w) ∧ KD w)
+            · exact Hoare.and (svvs_frame (by simp only [dvframe]) (by aframe)) (KD.frame (by simp only [dframe]))
+            · intro _; exact Hoare.pure _ (fun w h => h)
 
 theorem msgClaim_sv (w0 : World) (del : Acct) (v : ValId) (d : Option Denom) :
     Hoare (fun w => w = w0 ∧ KD w0) (msgClaim del v d) (fun _ w => SV w0 w) := by
@@ -217,7 +225,7 @@ theorem msgClaim_sv (w0 : World) (del : Acct) (v : ValId) (d : Option Denom) :
         (KD.frame (by simp only [dframe])).run w w' r hm hk⟩
     · intro val
       apply Hoare.bind (R := fun _ w => SV w0 w)
-      · exact (claimDelegationRewards_sv w0 del val dd).conseq (fun w h => h) (fun _ _ q => q.1)
+      · exact (claimDelegationRewards_sv w0 del val dd).conseq (fun w h => h) (fun _ _ q => q.1.1)
       · intro _; exact Hoare.pure _ (fun w h => h)
 
 /-- C13 / C04: a successful reward claim changes no share quantity: every position's shares, every validator's
